@@ -1,0 +1,5 @@
+//go:build !verif
+
+package interp
+
+func verifPoint(x interface{}, pt string, n int) {}
